@@ -13,6 +13,7 @@ package main
 //   spawn T del K               Delete(K); parks at del.acquired (holding K's guard)
 //   go T / poll T               release T to its next park point / look at T again
 //   patch K STATUS | del K | shiftexp HOW | shiftm HOW STATUS | state      synchronous requests
+//   shiftmm HOW MAX STATUS      ShiftMatchingTreasures with MaxResults = MAX (at most min(HOW, MAX) records)
 //   replies: T@<point> | T@guard (queued on a record guard) | T stuck (no progress within the step timeout) |
 //            T done <result>;  result: keys=[k:status,…] (in returned order) | patched=[k:CODE,…] | DELETED/NOT_FOUND
 //            state → idx=[keys of the expiration index, ascending] keys=[k:status,… sorted]
@@ -42,7 +43,8 @@ import (
 
 func init() { Register("C11", Domain{Gen: c11Gen, Run: c11Run}) }
 
-const c11StepTimeout = 1500 * time.Millisecond
+// a wait ends on its event; the limit only matters for a request that really hangs (scaled by HX_TIMEOUT_SCALE)
+var c11StepTimeout = HxScale(5 * time.Second)
 
 var c11Cfgs = []string{"m", "pN", "p0"}
 
@@ -136,8 +138,10 @@ func c11Gen(rng *rand.Rand, tier string, w *bufio.Writer) {
 				fmt.Fprintf(w, "patch %s %s\n", keys[rng.Intn(n)], sts[rng.Intn(2)])
 			case r < 72:
 				fmt.Fprintf(w, "shiftexp %d\n", 1+rng.Intn(2))
-			case r < 82:
+			case r < 78:
 				fmt.Fprintf(w, "shiftm %d %s\n", 1+rng.Intn(2), sts[rng.Intn(2)])
+			case r < 82:
+				fmt.Fprintf(w, "shiftmm %d %d %s\n", 1+rng.Intn(3), 1+rng.Intn(2), sts[rng.Intn(2)])
 			case r < 90:
 				fmt.Fprintf(w, "del %s\n", keys[rng.Intn(n)])
 			default:
@@ -254,6 +258,15 @@ func c11Keys(ts []*hydrapb.Treasure) string {
 func (st *c11State) doShiftM(how int, status string) string {
 	resp, err := st.rig.GW.ShiftMatchingTreasures(context.Background(), &hydrapb.ShiftMatchingTreasuresRequest{IslandID: 1, SwampName: st.swamp,
 		IndexType: hydrapb.IndexType_EXPIRATION_TIME, OrderType: hydrapb.OrderType_ASC, HowMany: int32(how), Filters: st.filter(status)})
+	if err != nil || resp == nil {
+		return "ERR"
+	}
+	return "keys=" + c11Keys(resp.GetTreasures())
+}
+
+func (st *c11State) doShiftMM(how, max int, status string) string {
+	resp, err := st.rig.GW.ShiftMatchingTreasures(context.Background(), &hydrapb.ShiftMatchingTreasuresRequest{IslandID: 1, SwampName: st.swamp,
+		IndexType: hydrapb.IndexType_EXPIRATION_TIME, OrderType: hydrapb.OrderType_ASC, HowMany: int32(how), MaxResults: int32(max), Filters: st.filter(status)})
 	if err != nil || resp == nil {
 		return "ERR"
 	}
@@ -401,7 +414,10 @@ func (st *c11State) spawn(f []string) string {
 	go func() {
 		st.threads.Register(tn)
 		defer st.threads.Unregister()
-		st.done <- c11Done{th: tn, result: run()}
+		r := run()
+		if st.threads.Current() != "" { // not a leftover of an earlier case
+			st.done <- c11Done{th: tn, result: r}
+		}
 	}()
 	return st.await(t)
 }
@@ -415,7 +431,7 @@ func (st *c11State) endCase() {
 	}
 	st.th = map[string]*c11Thread{}
 	st.mu.Unlock()
-	deadline := time.After(time.Second)
+	deadline := time.After(HxScale(3 * time.Second))
 	pending := 0
 	for _, t := range ths {
 		if t.at != "done" {
@@ -433,7 +449,7 @@ func (st *c11State) endCase() {
 		case <-st.done:
 			pending--
 		case <-st.events:
-		case <-time.After(10 * time.Millisecond):
+		case <-time.After(HxScale(10 * time.Millisecond)):
 		case <-deadline:
 			st.leaked = true
 			pending = 0
@@ -509,7 +525,7 @@ func (st *c11State) stress(claimers, records, how int) string {
 	go func() { wg.Wait(); close(fin) }()
 	select {
 	case <-fin:
-	case <-time.After(60 * time.Second):
+	case <-time.After(HxScale(120 * time.Second)):
 		st.dead, st.leaked = true, true
 		return "timeout"
 	}
@@ -590,6 +606,7 @@ func c11Run(in *bufio.Scanner, w *bufio.Writer) {
 		}
 		if f[0] == "case" {
 			st.endCase()
+			st.threads.NextEpoch()
 			st.dead = len(f) != 4
 			if !st.dead {
 				st.cfg = f[3]
@@ -602,7 +619,7 @@ func c11Run(in *bufio.Scanner, w *bufio.Writer) {
 			continue
 		}
 		if st.dead {
-			fmt.Fprintln(w, "skip")
+			fmt.Fprintln(w, "err skip")
 			continue
 		}
 		atoi := func(s string) int { n, _ := strconv.Atoi(s); return n }
@@ -635,6 +652,8 @@ func c11Run(in *bufio.Scanner, w *bufio.Writer) {
 			fmt.Fprintln(w, st.sync(func() string { return st.doShiftExp(atoi(f[1])) }))
 		case f[0] == "shiftm" && len(f) == 3:
 			fmt.Fprintln(w, st.sync(func() string { return st.doShiftM(atoi(f[1]), f[2]) }))
+		case f[0] == "shiftmm" && len(f) == 4:
+			fmt.Fprintln(w, st.sync(func() string { return st.doShiftMM(atoi(f[1]), atoi(f[2]), f[3]) }))
 		case f[0] == "state" && len(f) == 1:
 			fmt.Fprintln(w, st.sync(st.state))
 		case f[0] == "stress" && len(f) == 4:
